@@ -894,6 +894,18 @@ def rule_kinds(rep, tier):
                 want = "true" if "true" in (a, b) else "false"
                 w.must_hold("ieee_of<std::decay_t<decltype(std::declval<const xcomplex<double, double, %s>&>() %s std::declval<const xcomplex<%s, %s, %s>&>())>>::value == %s"
                             % (a, op, rk, rk, b, want), "C10.kinds", "operator" + op, "IEEE mode of the result", "ieee(%s) %s ieee(%s) [%s]" % (a, op, b, rk))
+    # ... and it is kept by everything that builds its result through temporary_xcomplex: unary operators, conj, operations with a scalar, the elementary
+    # functions - otherwise the second step of an expression such as (-p) * (-q) silently falls back to the textbook formula
+    for ie in ("true", "false"):
+        for rk in ("double", "double&", "const double&"):
+            X = "std::declval<const xcomplex<%s, %s, %s>&>()" % (rk, rk, ie)
+            for what, e in (("operator- (unary)", "-" + X), ("operator+ (unary)", "+" + X), ("conj", "conj(%s)" % X), ("operator* with a scalar", X + " * 2."),
+                            ("operator* with a scalar (left)", "2. * " + X), ("operator/ with a scalar", X + " / 2."), ("operator/ with a scalar (left)", "2. / " + X),
+                            ("operator+ with a scalar", X + " + 2."), ("operator- with a scalar (left)", "2. - " + X), ("exp", "exp(%s)" % X), ("sqrt", "sqrt(%s)" % X)):
+                w.must_hold("ieee_of<std::decay_t<decltype(%s)>>::value == %s" % (e, ie), "C10.kinds", what, "IEEE mode of the result", "ieee(%s) [%s]" % (ie, rk))
+    # the imaginary closure defaults to the kind of the real one: xcomplex<double&> is a reference closure in both parts
+    for rk in ("double", "double&", "const double&"):
+        w.must_hold("std::is_same<xcomplex<%s>, xcomplex<%s, %s, false>>::value" % (rk, rk, rk), "C10.kinds", "xcomplex<CTR>", "defaulted template arguments", rk)
     w.raw("}")
     for comp, std in ([("clang++", "gnu++17"), ("g++", "gnu++14")] if tier == "quick" else [("clang++", "gnu++14"), ("clang++", "gnu++17"), ("clang++", "gnu++20"), ("g++", "gnu++14"), ("g++", "gnu++17")]):
         w.run(rep, std=std, compiler=comp)
